@@ -31,6 +31,7 @@ import (
 	"fmt"
 	"io"
 	"math/rand"
+	stdregexp "regexp"
 	"strings"
 
 	jlib "github.com/jsightapi/jsight-schema-go-library"
@@ -695,7 +696,12 @@ func Run(args []string) {
 			return "PATTERN " + p
 		})
 		if !strings.HasPrefix(pat, "PATTERN ") {
-			rep.Stat("regex_not_accepted_skipped")
+			// the atoms only build patterns Go's regexp accepts: a refusal is a failure to find the end of /P/
+			if _, err := stdregexp.Compile(s[1 : len(s)-1]); err != nil {
+				rep.Stat("regex_generated_invalid_skipped")
+				continue
+			}
+			rep.AddDiff(vh.Diff{Component: "C14-regex", Input: fmt.Sprintf("%q", s), Impl: pat, Model: "PATTERN " + s[1:len(s)-1]})
 			continue
 		}
 		if pat != "PATTERN "+s[1:len(s)-1] {
